@@ -342,7 +342,7 @@ pub fn shape_lend(ids: [Index; NI], t: usize) {
         _ => None,
     };
     if !live {
-        assert!(got.is_none(), "C03: lending-join lookup through a dead handle returned an item");
+        assert!(got.is_none(), "C03/C06: lending-join lookup through a dead handle returned an item");
     }
     assert!(got == want, "C06: lending-join lookup by entity is wrong");
     witness!(!live && am[t].is_some() && bm[t].is_some() && st[t].current().is_some(), "lend: stale handle, newer occupant in the intersection");
